@@ -49,6 +49,7 @@ FAMILIES = {
         "extreme": ("ParamsExtreme", "MixMovesQ", 3, "BothTr", "PageOnly", "First1", ["GONewV", "BuildOther"]),
         "overprint": ("ParamsOver", "OverMoves", 3, "BothTr", "PageOnly", "First1", []),
         "wide":    ("ParamsWideQ", "WideMovesQ", 3, "BothTr", "PageOnly", "First1", []),
+        "vcolumns": ("ParamsVCol", "VColMovesQ", 4, "BothTr", "PageOnly", "FirstVCol", []),
         "nested":  ("ParamsNest", "NestMoves", 5, "BothTr", "PageOnly", "FirstNest", []),
         "degenerate": ("ParamsDegen", "DegenMoves", 3, "BothTr", "PageOnly", "FirstDegen", []),
     },
@@ -67,6 +68,7 @@ FAMILIES = {
         "extreme": ("ParamsExtreme", "MixMovesT", 3, "BothTr", "PageOnly", "First1", []),
         "overprint": ("ParamsOver", "OverMoves", 4, "BothTr", "PageOnly", "First1", []),
         "wide":    ("ParamsWide", "WideMoves", 4, "BothTr", "PageOnly", "FirstWide", []),
+        "vcolumns": ("ParamsVCol", "VColMovesT", 4, "BothTr", "PageOnly", "FirstVCol", []),
         "nested":  ("ParamsNestT", "NestMovesT", 5, "BothTr", "PageOnly", "FirstNest", []),
         "degenerate": ("ParamsDegen", "DegenMoves", 4, "BothTr", "PageOnly", "FirstDegen", []),
     },
